@@ -170,9 +170,11 @@ class Index:
     def all_modules(self):
         if not self._all_loaded:
             for m in self.sp.modules():
+                if m.startswith("ppsa_spec."):
+                    continue
                 self.module(m)
             self._all_loaded = True
-        return self._mods
+        return {k: v for k, v in self._mods.items() if not k.startswith("ppsa_spec.")}
 
     # ------------------------------------------------------------------ name resolution
     def resolve(self, modname, name, _seen=None):
